@@ -29,6 +29,13 @@ type C19Plan struct {
 	// Reuse: the second pass runs on the same sorter: "close-reset" = Close, Reset, feed again, Close;
 	// "reset" = Reset without closing first (as doctor and reingest do), feed again, Close
 	Reuse string `json:"reuse,omitempty"`
+	// FsizeWindow [a,b): the file-size limit holds only while rows a..b-1 are added; AddRow errors are ignored
+	// and feeding goes on (as reingest and doctor's resolver do): every row accepted or refused with an error
+	// must still be in both outputs once the disk has room again
+	FsizeWindow []int `json:"fsize_window,omitempty"`
+	// HeldRows: the plain-rows output is held by reference while the sorter is reset and used for another
+	// table: the rows handed out earlier must not change
+	HeldRows bool `json:"held_rows,omitempty"`
 }
 
 type SpillCut struct {
@@ -118,6 +125,12 @@ func init() {
 			}
 			if p.FsizeLimit == 0 && p.SpillCut == nil && r.Chance(0.25) {
 				p.Reuse = Pick(r, []string{"close-reset", "reset"})
+			}
+			if p.RunSize > 0 && p.SpillCut == nil && p.Reuse == "" && len(tb.Rows) >= 4 && r.Chance(0.12) {
+				a := r.Intn(len(tb.Rows))
+				p.FsizeLimit, p.FsizeWindow, p.Feed = Pick(r, []uint64{1, 7, 60, 300}), []int{a, a + r.Range(1, len(tb.Rows)-a)}, Pick(r, []string{"rows", "bare"})
+			} else if p.FsizeLimit == 0 && p.SpillCut == nil && p.Reuse == "" && r.Chance(0.1) {
+				p.HeldRows = true
 			}
 			if len(tb.PK) > 0 && r.Chance(0.4) {
 				pk, _ := pkIndices(tb.Cols, tb.PK)
@@ -268,6 +281,14 @@ func execC19(t *testing.T, raw json.RawMessage, res *Result) {
 		return true
 	}
 
+	if len(p.FsizeWindow) > 0 {
+		execC19Window(&p, res, cols, rows, pk, remArg, check)
+		return
+	}
+	if p.HeldRows {
+		execC19Held(&p, res, cols, rows, pkNames, pk, remArg, check)
+		return
+	}
 	// blocks output
 	var s1 *sorter.Sorter
 	feed1 := func() { s1, err = feedSorter(&p, cols, rows, pkNames, pk) }
@@ -459,4 +480,164 @@ func cleanTmp() {
 	for _, e := range es {
 		os.RemoveAll(filepath.Join(d, e.Name()))
 	}
+}
+
+// execC19Window: rows are added one by one; while rows a..b-1 arrive no file may grow beyond the limit
+// (spills fail), errors of AddRow are ignored and feeding goes on; afterwards both outputs must be complete.
+func execC19Window(p *C19Plan, res *Result, cols []string, rows [][]string, pk []int, remArg map[int]struct{}, check func(string, [][]string) bool) {
+	if len(p.FsizeWindow) != 2 || p.FsizeWindow[0] < 0 || p.FsizeWindow[1] < p.FsizeWindow[0] || p.FsizeLimit == 0 || p.Feed == "csv" {
+		res.Invalid("fsize_window")
+		return
+	}
+	build := func() (*sorter.Sorter, int, error) {
+		rs := p.RunSize
+		if rs == 0 {
+			rs = 1 << 40
+		}
+		s, err := sorter.NewSorter(sorter.WithRunSize(rs))
+		if err != nil {
+			return nil, 0, err
+		}
+		if p.Feed != "bare" {
+			s.SetColumns(cols)
+		}
+		s.PK = make([]uint32, len(pk))
+		for i, u := range pk {
+			s.PK[i] = uint32(u)
+		}
+		failed := 0
+		for i, r := range rows {
+			add := func() {
+				if err := s.AddRow(r); err != nil {
+					failed++
+				}
+			}
+			if i >= p.FsizeWindow[0] && i < p.FsizeWindow[1] {
+				withFsizeLimit(p.FsizeLimit, add)
+			} else {
+				add()
+			}
+		}
+		return s, failed, nil
+	}
+	s1, failed, err := build()
+	if err != nil {
+		res.Invalid("%v", err)
+		return
+	}
+	if failed > 0 {
+		res.fault("spill_write_error", failed)
+		res.probe("feeding_continued_after_failed_spill", 1)
+	}
+	errCh := make(chan error, 1)
+	var gotB [][]string
+	for b := range s1.SortedBlocks(context.Background(), remArg, errCh) {
+		br, err := decBlock(b.Block)
+		if err != nil {
+			res.Violate("blocks-undecodable", "%v", err)
+			return
+		}
+		gotB = append(gotB, br...)
+	}
+	select {
+	case err := <-errCh:
+		res.Violate("sorter-error", "SortedBlocks after a failed spill that was followed by successful ones: %v", err)
+		return
+	default:
+	}
+	if err := s1.Close(); err != nil {
+		res.Violate("sorter-error", "Close: %v", err)
+		return
+	}
+	if n := countTmp(); n != 0 {
+		res.Violate("spill-file-left", "%d files left in the temp dir after Close", n)
+		return
+	}
+	if !check("after-failed-spill-blocks", gotB) {
+		return
+	}
+	s2, _, err := build()
+	if err != nil {
+		res.Invalid("%v", err)
+		return
+	}
+	errCh2 := make(chan error, 1)
+	var gotR [][]string
+	for rs := range s2.SortedRows(context.Background(), remArg, errCh2) {
+		for _, r := range rs.Rows {
+			gotR = append(gotR, append([]string(nil), r...))
+		}
+	}
+	select {
+	case err := <-errCh2:
+		res.Violate("sorter-error", "SortedRows after a failed spill: %v", err)
+		return
+	default:
+	}
+	s2.Close()
+	if n := countTmp(); n != 0 {
+		res.Violate("spill-file-left", "%d files left in the temp dir after Close", n)
+		return
+	}
+	if !check("after-failed-spill-rows", gotR) {
+		return
+	}
+	res.Nontrivial = failed > 0
+}
+
+// execC19Held: the rows of the plain-rows output are kept as handed out (no copy) while the sorter is reset and
+// fed another table; they must still be the first table's rows afterwards.
+func execC19Held(p *C19Plan, res *Result, cols []string, rows [][]string, pkNames []string, pk []int, remArg map[int]struct{}, check func(string, [][]string) bool) {
+	s1, err := feedSorter(p, cols, rows, pkNames, pk)
+	if err != nil {
+		res.Violate("sorter-error", "feeding sorter: %v", err)
+		return
+	}
+	errCh := make(chan error, 1)
+	var held [][]string
+	for rs := range s1.SortedRows(context.Background(), remArg, errCh) {
+		held = append(held, rs.Rows...) // by reference, as a consumer collecting batches does
+	}
+	select {
+	case err := <-errCh:
+		res.Violate("sorter-error", "SortedRows: %v", err)
+		return
+	default:
+	}
+	if !check("rows", held) {
+		return
+	}
+	// another table through the same sorter: the same rows with every cell marked
+	other := make([][]string, len(rows))
+	for i := len(rows) - 1; i >= 0; i-- {
+		o := make([]string, len(rows[i]))
+		for j, c := range rows[i] {
+			o[j] = "o" + c
+			if len(o[j]) > 65535 {
+				o[j] = c[:len(c)-1] + "o"
+			}
+		}
+		other[len(rows)-1-i] = o
+	}
+	s1.Reset()
+	if _, err := feedSorterInto(s1, p, cols, other, pkNames, pk); err != nil {
+		res.Violate("sorter-error", "feeding the reused sorter: %v", err)
+		return
+	}
+	errCh2 := make(chan error, 1)
+	for range s1.SortedBlocks(context.Background(), remArg, errCh2) {
+	}
+	if err := s1.Close(); err != nil {
+		res.Violate("sorter-error", "Close: %v", err)
+		return
+	}
+	if n := countTmp(); n != 0 {
+		res.Violate("spill-file-left", "%d files left in the temp dir after Close", n)
+		return
+	}
+	if !check("rows-held-across-reuse", held) {
+		return
+	}
+	res.probe("rows_held_across_sorter_reuse", 1)
+	res.Nontrivial = len(rows) >= 3
 }
